@@ -1050,3 +1050,154 @@ def r18_5(ctx, run, rule='R18.5'):
                 else:
                     ok = x[0] == 'cast' and x[1] == 'IntToFloat' and x[3] == 'f64' and any(s[0] == 'downcast' and s[2] == vname for s in subterms(x[2]))
             (run.proved if ok else run.violation)(rule, b.path, f'arm[{vname}]', 'Some(value as f64): round-to-nearest by language semantics' if ok else f'as_f64 of {vname} returns {show(r)}', f'{b.file}:{b.line}')
+
+
+# ------------------------------------------------------------------ R18.1 (bit-length form): the low `width` bytes of the 8-byte form hold the value
+
+def bitlen_widths(ctx, run, rule='R18.1'):
+    """Where an integer is written as the low W bytes of its 8-byte big-endian form (`&v.to_be_bytes()[8 - W..]`) with W chosen from a bit
+    count (`64 - v.leading_zeros()`, `65 - v.leading_ones()`, a sign-folded magnitude), the conditions of the path bound the value:
+    lz(x) >= 64-k  <=>  x < 2^k (as an unsigned pattern), and for a negative v, leading_ones(v) >= 64-k  <=>  v >= -2^k.  The decoder
+    reads W bytes back as a signed (NUMBER_INT) or unsigned (NUMBER_UINT) integer, so the path must imply v in [-2^(8W-1), 2^(8W-1)) resp.
+    v < 2^(8W).  Interval reasoning only; a shape this reading does not cover is undecided."""
+    from panics import norm_conds
+    f = ctx.facts
+    n = 0
+    for p, b in sorted(f.bodies.items()):
+        if b.kind == 'Promoted' or not p.startswith('number::'):
+            continue
+        if not any(called(callee_name(t), 'to_be_bytes') for _, t in b.calls()):
+            continue
+        ps, capped = explore(b, max_paths=4000)
+        rows = {}
+        for q in ps:
+            if q.end[0] != 'return':
+                continue
+            for e in q.calls():
+                if not (called(e[1], 'Write::write_all', 'Vec::extend_from_slice') and len(e[2]) == 2):
+                    continue
+                x = deref_all(e[2][1])
+                if not (is_call(x, 'Index::index', 'index::index', 'array::index') and len(x[2]) == 2):
+                    continue
+                arr, rg = deref_all(x[2][0]), deref_all(x[2][1])
+                if not (is_call(arr, 'to_be_bytes') and arr[2] and agg_variant(rg) and rg[1][1].split('::')[-1] == 'RangeFrom' and rg[2]):
+                    continue
+                V = deref_all(arr[2][0])
+                vty = None
+                for s_ in subterms(V):
+                    if s_[0] == 'downcast' and s_[2] in ('Int64', 'UInt64'):
+                        vty = 'i64' if s_[2] == 'Int64' else 'u64'
+                if vty is None:
+                    continue
+                start = const_of(rg[2][0])
+                conds = q.conds[:e[6]]
+                try:
+                    _bitcount = lambda a: IntervalSet([(0, 64)]) if (isinstance(a, tuple) and a and a[0] == 'call' and canon(a[1]).split('::')[-1] in ('leading_zeros', 'leading_ones', 'count_ones')) else None
+                    pf = PathFacts(norm_conds(conds), nonneg=lambda a: isinstance(a, tuple) and a and a[0] == 'call', typed=_bitcount)
+                    if pf.infeasible():
+                        continue
+                except Exception:
+                    continue
+                key_base = (vty,)
+                if not isinstance(start, int):
+                    # the width comes from a helper `payload_width(bits)`: one row per constant it returns
+                    wt = None
+                    l_ = lin(strip_casts(rg[2][0]))
+                    calls_ = [a_ for a_ in l_[0] if a_[0] == 'call' and a_[1] in f.bodies]
+                    if len(calls_) == 1 and l_[0][calls_[0]] == -1 and l_[1] == 8 and len(calls_[0][2]) == 1:
+                        hb = f.bodies[calls_[0][1]]
+                        hrows = []
+                        for hq in explore(hb)[0]:
+                            if hq.end[0] != 'return' or hq.ret[0] != 'const' or not isinstance(hq.ret[1], int):
+                                hrows = None
+                                break
+                            try:
+                                hpf = PathFacts(norm_conds(hq.conds), nonneg=lambda a: True)
+                                if hpf.infeasible():
+                                    continue
+                                r_ = hpf.range_of_term(('init', 1, hb.name_of(1)))
+                            except Exception:
+                                hrows = None
+                                break
+                            hrows.append((hq.ret[1], r_.hi() if not r_.empty() else INF))
+                        if hrows:
+                            bterm = calls_[0][2][0]
+                            for W, bhi in hrows:
+                                rows.setdefault((vty, W, show(bterm)[:80]), []).append((bterm, bhi, conds, V, e[5]))
+                            continue
+                    rows.setdefault((vty, None, show(rg[2][0])[:60]), []).append((None, None, conds, V, e[5]))
+                    continue
+                W = 8 - start
+                # the bit-count term the path tests: C - leading_zeros(X) / C - leading_ones(X)
+                bterms = []
+                for c in conds:
+                    for s_ in subterms(c[0]):
+                        if s_[0] == 'bin' and s_[1] == 'Sub' and const_of(s_[2]) in (64, 65) and is_call(strip_casts(s_[3]), 'leading_zeros', 'leading_ones') and s_ not in bterms:
+                            bterms.append(s_)
+                if W == 8:
+                    continue
+                if len(bterms) != 1:
+                    # fewer than 8 bytes of the 8-byte form are written and no single bit-count test is on the path (the count is merged from
+                    # two branches, or the width is chosen some other way)
+                    rows.setdefault((vty, W, 'unread'), []).append((None, None, conds, V, e[5]))
+                    continue
+                bterm = bterms[0]
+                try:
+                    from panics import norm as _norm
+                    r_ = pf.range_of_term(_norm(bterm))
+                    bhi = r_.hi() if not r_.empty() else INF
+                    if bhi >= 64:
+                        r2_ = pf.range_of_term(bterm)
+                        if not r2_.empty():
+                            bhi = min(bhi, r2_.hi())
+                except Exception:
+                    bhi = INF
+                rows.setdefault((vty, W, show(bterm)[:80]), []).append((bterm, bhi, conds, V, e[5]))
+        for (vty, W, desc), occ in sorted(rows.items(), key=str):
+            n += 1
+            loc = f"{occ[0][4].get('file')}:{occ[0][4].get('line')}"
+            d = f'bit-length[{vty}:{W}:{desc[:40]}]'
+            verdict = 'ok'
+            why = ''
+            for (bterm, bhi, conds, V, _t) in occ:
+                if bterm is None or W is None:
+                    verdict, why = 'unread', 'the width or the bit count on this path is computed in a form this rule does not read'
+                    break
+                if W == 8:
+                    continue
+                bt = strip_casts(bterm)
+                if not (bt[0] == 'bin' and bt[1] == 'Sub' and const_of(bt[2]) in (64, 65) and is_call(strip_casts(bt[3]), 'leading_zeros', 'leading_ones')):
+                    verdict, why = 'unread', f'the bit count {show(bterm)[:50]} is not C - leading_zeros(x) / C - leading_ones(x)'
+                    break
+                if bhi == INF:
+                    verdict, why = 'unread', 'no upper bound on the bit count is known on this path'
+                    break
+                C = const_of(bt[2])
+                K = 64 - C + bhi          # x < 2^K (leading_zeros) / v >= -2^K (leading_ones)
+                fn_ = canon(strip_casts(bt[3])[1]).split('::')[-1]
+                X = deref_all(strip_casts(strip_casts(bt[3])[2][0]))
+                shift = 0
+                if X[0] == 'bin' and X[1] == 'Shl' and isinstance(const_of(X[3]), int):
+                    shift = const_of(X[3])
+                    X = deref_all(strip_casts(X[2]))
+                folded = X[0] == 'bin' and X[1] == 'BitXor' and any(s_[0] == 'bin' and s_[1] == 'Shr' and const_of(s_[3]) == 63 for s_ in subterms(X))
+                plain = (X == V) or (show(X) == show(V))
+                if not (folded or plain):
+                    verdict, why = 'unread', f'the bit count is taken of {show(X)[:50]}, which this rule does not relate to the value written'
+                    break
+                Kv = K - shift            # bound exponent of |v| (v < 2^Kv, and for signed forms v >= -2^Kv)
+                need = 8 * W - (1 if vty == 'i64' else 0)
+                if Kv > need:
+                    lo_ = f'-2^{Kv}' if (vty == 'i64' and (folded or fn_ == 'leading_ones')) else '0'
+                    verdict = 'bad'
+                    why = (f'on this path the bit count is at most {bhi}, i.e. the value may be anything in [{lo_}, 2^{Kv}), and its low {W} byte(s) are written; read back as '
+                           f'{"a signed" if vty == "i64" else "an unsigned"} {8 * W}-bit integer only [{"-2^" + str(8 * W - 1) if vty == "i64" else "0"}, 2^{need}) comes back unchanged'
+                           + (' (the sign bit is not counted)' if vty == 'i64' else ''))
+                    break
+            if verdict == 'ok':
+                run.proved(rule, p, d, f'every value that reaches this {W}-byte form fits it', loc)
+            elif verdict == 'bad':
+                run.violation(rule, p, d, why, loc)
+            else:
+                run.undecided(rule, p, d, why + ': not decided', loc)
+    run.count('bitlen_rows', n)
